@@ -37,6 +37,10 @@ def run(ctx):
                   'COVER')
     from mstatic.rules import shared as _sh
     _sh.refresh_covers_unfinished(ctx, r6)
+    from mstatic.rules import completion
+    r7 = ctx.rule('R7', 'the backlog is restored completely and emptied on '
+                  'resume', 'DT')
+    completion.backlog_poll(ctx, r7)
 
 
 def _run(ctx):
